@@ -23,6 +23,17 @@ CLAIMED = {
                 "Bounded: the listed templates, English (and autodetection for marked templates), fixed-offset zones.",
         "design_ref": "DESIGN.md §3 C01",
     },
+    "C04": {
+        "text": "Public entry get_date_data (English) for 'n U ago' / 'in n U' with every unit incl. decades, 2- and "
+                "3-unit phrases in both orders, now/today/yesterday/tomorrow, last/next week|month|year, phrases with a "
+                "clock time (also with RETURN_TIME_AS_PERIOD) and the implicit-now form under fixed-offset TIMEZONEs: "
+                "the reference instant (years 1-9999 incl. microseconds), the counts (written width up to 4 digits) and "
+                "the clock are symbolic; the real dateutil.relativedelta is executed through the same loader; z3 shows "
+                "per path that the result equals independent calendar arithmetic (clamped month/year steps, then linear "
+                "units on the instant pair), is None exactly when that leaves year 1-9999, and that the period is the one "
+                "the statement names. Decimals are outside.",
+        "design_ref": "DESIGN.md §3 C04",
+    },
     "C07": {
         "text": "Public entry get_date_data for numeric three-field dates (4-digit zero-padded year) rendered in each of "
                 "the 6 orders with separators '-', '/', '.', ' ' (optional HH:MM): with every valid (y,m,d) for years "
